@@ -62,7 +62,15 @@ def series(kind, n, seed):
     elif kind == 'huge':
         c = gen.candles({'seed': seed, 'n': n, 'vol': 0.01, 'start': 3.1e7, 'zero_vol_p': 0.0})
     elif kind == 'tiny':
-        c = gen.candles({'seed': seed, 'n': n, 'vol': 0.01, 'start': 2.3e-6, 'zero_vol_p': 0.0})
+        # (alt/BTC price levels: window ranges go below 1e-8, the default absolute tolerance of np.isclose)
+        c = gen.candles({'seed': seed, 'n': n, 'vol': 0.01, 'start': rng.choice([2.3e-6, 4.1e-8]), 'zero_vol_p': 0.0})
+    elif kind == 'zerovol':
+        # minutes without a trade, as jesse's own gap filling writes them: flat at the previous close, volume 0
+        c = gen.candles({'seed': seed, 'n': n, 'vol': 0.006, 'start': 100.0, 'zero_vol_p': 0.0})
+        for i in rng.sample(range(3, n), max(3, n // 15)):
+            c[i, 1:5] = c[i - 1, 2]
+            c[i, 5] = 0.0
+        return c
     elif kind == 'constant':
         c = gen.candles({'seed': seed, 'n': n, 'vol': 0.0, 'flat_p': 1.0, 'start': 75.0, 'zero_vol_p': 0.0})
     elif kind == 'monotone':
@@ -74,6 +82,20 @@ def series(kind, n, seed):
         raise ValueError(kind)
     c[:, 5] = np.where(c[:, 5] <= 0, 1.0, c[:, 5])
     return c
+
+
+def period_keys(sig):
+    """names of the period-like integer parameters of an indicator signature"""
+    out = []
+    for k, p in sig.parameters.items():
+        d = p.default
+        lk = k.lower()
+        if k in ('candles', 'sequential') or d is inspect.Parameter.empty:
+            continue
+        if isinstance(d, int) and not isinstance(d, bool) and 'matype' not in lk and lk != 'devtype' and (
+                any(x in lk for x in ('period', 'length', 'window', 'range', 'lookback', 'bars')) or lk in ('p', 'q', 'r', 's', 'u', 'k', 'd', 'order')):
+            out.append(k)
+    return out
 
 
 def param_sets(name, sig, rng, how_many, small=False):
